@@ -367,20 +367,32 @@ func runC16(c *Ctx) {
 		c.Anchor("O16.5", "config.DecodeMap / ConvertHCLToAmmo / ParseAmmoConfig / ReadAmmoConfig / ParseHCLFile")
 	} else {
 		for _, fn := range []*ssa.Function{conv, pac} {
-			var call *ssa.Call
+			// some success return yields DecodeMap's result - directly, or through a helper of the package both
+			// front-ends share (decodeYAMLBytes)
+			isDM := func(v ssa.Value) bool {
+				cl, idx := CallOfValue(v)
+				return cl != nil && cl.Call.StaticCallee() == dm && idx <= 0
+			}
+			ok := false
 			EachInstr(fn, func(in ssa.Instruction) {
-				if cl, ok := in.(*ssa.Call); ok && cl.Call.StaticCallee() == dm {
-					call = cl
+				r, isR := in.(*ssa.Return)
+				if !isR || len(r.Results) != 2 {
+					return
+				}
+				for _, rt := range Roots(r.Results[0], false) {
+					if isDM(rt) {
+						ok = true
+						continue
+					}
+					if cl, _ := CallOfValue(rt); cl != nil && cl.Call.StaticCallee() != nil && cl.Call.StaticCallee() != dm {
+						EachInstr(cl.Call.StaticCallee(), func(i2 ssa.Instruction) {
+							if r2, isR2 := i2.(*ssa.Return); isR2 && len(r2.Results) == 2 && DerivesOnly(r2.Results[0], false, isDM) {
+								ok = true
+							}
+						})
+					}
 				}
 			})
-			ok := false
-			if call != nil {
-				EachInstr(fn, func(in ssa.Instruction) {
-					if r, isR := in.(*ssa.Return); isR && len(r.Results) == 2 && DerivesOnly(r.Results[0], false, IsResultOf(call, 0)) && IsNilConst(r.Results[1]) {
-						ok = true
-					}
-				})
-			}
 			c.Check(ok, "O16.5", fk(fn)+":ends-in-DecodeMap", fn.Pos(), "the returned config is DecodeMap's result")
 		}
 		// ConvertHCLToAmmo marshals exactly its argument
@@ -447,18 +459,21 @@ func runC16(c *Ctx) {
 		return
 	}
 	var dlc, body *ssa.Call
-	EachInstr(phf, func(in ssa.Instruction) {
-		cl, ok := in.(*ssa.Call)
-		if !ok {
-			return
-		}
-		if cl.Call.StaticCallee() == dl {
-			dlc = cl
-		}
-		if MatchCC(&cl.Call, Spec{"github.com/hashicorp/hcl/v2/gohcl", "", "DecodeBody"}) {
-			body = cl
-		}
-	})
+	// in ParseHCLFile or in the helper of the package it hands the body to (decodeHCLBody)
+	for _, g := range FindFuncs(phf, 2, func(*ssa.Function) bool { return true }) {
+		EachInstr(g, func(in ssa.Instruction) {
+			cl, ok := in.(*ssa.Call)
+			if !ok {
+				return
+			}
+			if cl.Call.StaticCallee() == dl {
+				dlc = cl
+			}
+			if MatchCC(&cl.Call, Spec{"github.com/hashicorp/hcl/v2/gohcl", "", "DecodeBody"}) {
+				body = cl
+			}
+		})
+	}
 	ok := dlc != nil && body != nil && InstrDominates(dlc, body) && DerivesOnly(body.Call.Args[1], false, IsResultOf(dlc, 0))
 	c.Check(ok, "O16.6", fk(phf)+":locals-evaluated-before-the-body", phf.Pos(), "gohcl.DecodeBody is dominated by decodeLocals and receives its evaluation context")
 	// inside decodeLocals
